@@ -41,8 +41,9 @@ BASES = [None, BASE, "https://sec.org/b/"]       # case["base"]: False/0 no @bas
 IRIS = ["http://ex.org/s1", "http://ex.org/s2", "http://ex.org/ns/o1", "http://empty.org/e1", BASE + "rel1", BASE + "rel2",
         "http://other.org/v#frag", "http://ex.org/C", "http://ex.org/ns/D", "http://ex.org/a.b", "http://ex.org/a-b_1",
         "http://ex.org/ns/x.y-z", "http://ex.org/caf\u00e9", "http://ex.org/ns/s1", "http://empty.org/s1", "http://ex.org/o1",
-        "https://sec.org/b/rel3", "https://data.example/d1", "urn:x:y1", "httpx://odd.org/z"]
-PREDS = ["http://ex.org/p1", "http://ex.org/ns/p2", RDF_TYPE, BASE + "relp", "http://other.org/v#q",
+        "https://sec.org/b/rel3", "https://data.example/d1", "urn:x:y1", "httpx://odd.org/z",
+        "http://ex.org/item:42", "http://ex.org/ns/x:y:z", "http://empty.org/item:42"]
+PREDS = ["http://ex.org/rel:to", "http://ex.org/p1", "http://ex.org/ns/p2", RDF_TYPE, BASE + "relp", "http://other.org/v#q",
          "http://ex.org/ns/p1", "http://empty.org/p1", "http://ex.org/p2"]      # same local names in several namespaces
 BNODES = ["_:b1", "_:b2", "_:x_1"]
 PIECES = ["a", "b c", "#", " # x", ";", " ; ", ",", " , ", ".", " . ", '\\"', "\\\\", "'", "@", "^^", "<", ">", "é", "\\n", "xsd:", "1", "\u2028", "\u0085"]
@@ -51,6 +52,7 @@ SPECIAL_PIECES = set(PIECES) - {"a", "b c", "1", "é"}
 DTYPES = [("", XSD_STRING, None), ("@en", LANGSTRING, None), ("@en-GB", LANGSTRING, None),
           ("^^<%sint>" % XSD, XSD + "int", None), ("^^xsd:date", XSD + "date", "xsd"), ("^^dtp:custom", "http://ex.org/dt/custom", "dtp"),
           ("^^x:decimal", XSD + "decimal", "x"), ("^^<http://ex.org/dt/other>", "http://ex.org/dt/other", None),
+          ("^^dtp:si:kg", "http://ex.org/dt/si:kg", "dtp"),
           ("^^xsd:string", XSD_STRING, "xsd")]
 SEPS = [" ", " ", "\t", "  ", "\n", "\n", "\n   "]
 COMMENTS = ["# a comment", "#c", '# "quoted" ; , .', "# <http://ex.org/a> ex:p ex:o ."]
@@ -82,7 +84,7 @@ def render_iri(iri, ch, declared, use_base, position):
     for p, ns in declared.items():
         if iri.startswith(ns):
             loc = iri[len(ns):]
-            if loc and all(c.isalnum() or c in "_-." for c in loc) and loc[0] not in "-." and loc[-1] != ".":
+            if loc and all(c.isalnum() or c in "_-.:" for c in loc) and loc[0] not in "-." and loc[-1] != ".":
                 forms.append("pref:" + p)
     if use_base and iri.startswith(use_base):
         forms.append("rel")
